@@ -155,5 +155,21 @@ Proof.
   - destruct (mem x b); cbn [negb]; rewrite IH; reflexivity.
 Qed.
 
+(* for a type that is not a singleton, Rdataset.add is set insertion and union_update is set union *)
+Lemma rds_add_plain : forall ty d ds, is_singleton ty = false -> rds_add ty d ds = ins d ds.
+Proof. intros ty d ds H. unfold rds_add. rewrite H. reflexivity. Qed.
+
+Lemma fold_rds_add_union : forall ty new erds, is_singleton ty = false ->
+  fold_left (fun acc x => rds_add ty x acc) new erds = union erds new.
+Proof.
+  intros ty new. unfold union. induction new as [|x new IH]; intros erds H; cbn [fold_left]; [reflexivity|].
+  rewrite rds_add_plain by exact H. apply IH, H.
+Qed.
+
+Lemma singleton_soa : is_singleton tSOA = true. Proof. reflexivity. Qed.
+
+Lemma not_singleton_not_soa : forall t, is_singleton t = false -> t <> tSOA.
+Proof. intros t H E. subst t. discriminate. Qed.
+
 Lemma min_same : forall t : Z, (if t <? t then t else t) = t.
 Proof. intros t. destruct (t <? t); reflexivity. Qed.
